@@ -131,6 +131,9 @@ func (ex *Exec) zero(t types.Type) Term {
 	so := ex.q.so
 	switch u := t.Underlying().(type) {
 	case *types.Basic:
+		if s := so.sortOf(t); isBV(s) {
+			return bvLit("0", bvWidthOfSort(s))
+		}
 		switch so.sortOf(t) {
 		case sBool:
 			return tFalse
@@ -170,6 +173,12 @@ func (ex *Exec) constTerm(c *ssa.Const) Term {
 	t := c.Type()
 	if c.Value == nil {
 		return ex.zero(t)
+	}
+	if s := ex.q.so.sortOf(t); isBV(s) {
+		v := constant.ToInt(c.Value)
+		if v.Kind() == constant.Int {
+			return bvLit(v.ExactString(), bvWidthOfSort(s))
+		}
 	}
 	switch ex.q.so.sortOf(t) {
 	case sBool:
@@ -221,6 +230,32 @@ func (ex *Exec) val(v ssa.Value) Term {
 	return Term{}
 }
 
+// ival: mathematical (Int-sorted) view of an integer-typed SSA value.
+func (ex *Exec) ival(v ssa.Value) Term {
+	t := ex.val(v)
+	if isBV(t.Sort) {
+		return ex.q.def("i_"+v.Name(), bvToInt(t, isSignedInt(v.Type())))
+	}
+	return t
+}
+
+// asVal: an Int-sorted term as a value of integer type t (bit-vector in bv mode).
+func (ex *Exec) asVal(it Term, t types.Type) Term {
+	if ex.q.so.bv && ex.q.so.sortOf(t) != sInt && it.Sort == sInt {
+		return intToBV(it, intWidth(t))
+	}
+	return it
+}
+
+func (ex *Exec) intLit(n int64, t types.Type) Term {
+	if ex.q.so.bv {
+		if s := ex.q.so.sortOf(t); isBV(s) {
+			return bvLit(fmt.Sprint(n), bvWidthOfSort(s))
+		}
+	}
+	return tInt(n)
+}
+
 func (ex *Exec) setVal(v ssa.Value, t Term) {
 	ex.vals[v] = ex.q.def(ex.fn.Name()+"_"+v.Name(), t)
 }
@@ -242,7 +277,7 @@ func (ex *Exec) typeFacts(v Term, t types.Type) {
 	}
 	switch u := t.Underlying().(type) {
 	case *types.Basic:
-		if u.Info()&types.IsInteger != 0 {
+		if u.Info()&types.IsInteger != 0 && v.Sort == sInt {
 			ex.q.assume(rangeFact(v, t))
 		}
 		if u.Info()&types.IsString != 0 {
@@ -551,7 +586,7 @@ func (ex *Exec) instr(ins ssa.Instruction, b *ssa.BasicBlock, h *Heap, reach Ter
 			ex.locs[x] = &Loc{kind: lkSub, parent: bl, field: x.Field, typ: st.Field(x.Field).Type(), root: bl.root}
 		}
 	case *ssa.IndexAddr:
-		idx := ex.val(x.Index)
+		idx := ex.ival(x.Index)
 		switch xt := x.X.Type().Underlying().(type) {
 		case *types.Slice:
 			s := ex.val(x.X)
@@ -579,18 +614,18 @@ func (ex *Exec) instr(ins ssa.Instruction, b *ssa.BasicBlock, h *Heap, reach Ter
 	case *ssa.Index:
 		switch xt := x.X.Type().Underlying().(type) {
 		case *types.Array:
-			idx := ex.val(x.Index)
+			idx := ex.ival(x.Index)
 			if !(isByteType(x.Index.Type()) && xt.Len() == 256) {
 				ex.safety("safe.index", reach, and(le(tInt(0), idx), lt(idx, tInt(xt.Len()))), x, "array index")
 			}
 			ex.setVal(x, sel(ex.val(x.X), idx))
 		case *types.Basic: // string
 			s := ex.val(x.X)
-			idx := ex.val(x.Index)
+			idx := ex.ival(x.Index)
 			ex.safety("safe.index", reach, and(le(tInt(0), idx), lt(idx, strLen(s))), x, "string index")
 			v := q.def("sidx", strAt(s, idx))
 			q.assume(rangeFact(v, types.Typ[types.Uint8]))
-			ex.vals[x] = v
+			ex.vals[x] = ex.asVal(v, x.Type())
 		default:
 			unsupported("Index on %s", x.X.Type())
 		}
@@ -635,8 +670,8 @@ func (ex *Exec) instr(ins ssa.Instruction, b *ssa.BasicBlock, h *Heap, reach Ter
 	case *ssa.Slice:
 		ex.slice(x, h, reach)
 	case *ssa.MakeSlice:
-		ln := ex.val(x.Len)
-		cp := ex.val(x.Cap)
+		ln := ex.ival(x.Len)
+		cp := ex.ival(x.Cap)
 		ex.safety("safe.makeslice", reach, and(le(tInt(0), ln), le(ln, cp), le(cp, app(sInt, "*", tInt(2), tIntS(maxLen)))), x, "make([]T, len, cap) with negative or huge size")
 		base := ex.alloc(h, "slice")
 		et := x.Type().Underlying().(*types.Slice).Elem()
@@ -702,9 +737,13 @@ func (ex *Exec) instr(ins ssa.Instruction, b *ssa.BasicBlock, h *Heap, reach Ter
 				b0 := strAt(s, pos)
 				width := q.fresh("runew", sInt)
 				q.assume(eq(ok, lt(pos, strLen(s))))
-				q.assume(eq(k, pos))
-				q.assume(implies(and(ok, lt(b0, tInt(128))), and(eq(v, b0), eq(width, tInt(1)))))
-				q.assume(implies(and(ok, le(tInt(128), b0)), and(le(tInt(128), v), le(tInt(1), width), le(width, tInt(4)))))
+				kI, vI := k, v
+				if isBV(k.Sort) {
+					kI, vI = bvToInt(k, true), bvToInt(v, true)
+				}
+				q.assume(eq(kI, pos))
+				q.assume(implies(and(ok, lt(b0, tInt(128))), and(eq(vI, b0), eq(width, tInt(1)))))
+				q.assume(implies(and(ok, le(tInt(128), b0)), and(le(tInt(128), vI), le(tInt(1), width), le(width, tInt(4)))))
 				q.assume(and(le(tInt(0), pos), le(tInt(1), width)))
 				q.heapSet(h, key, store(q.heapGet(h, key), it, ite(ok, add(pos, width), pos)))
 			}
@@ -864,11 +903,11 @@ func (ex *Exec) lookup(x *ssa.Lookup, h *Heap, reach Term) {
 	}
 	// string index
 	s := ex.val(x.X)
-	idx := ex.val(x.Index)
+	idx := ex.ival(x.Index)
 	ex.safety("safe.index", reach, and(le(tInt(0), idx), lt(idx, strLen(s))), x, "string index")
 	v := q.def("sidx", strAt(s, idx))
 	q.assume(rangeFact(v, types.Typ[types.Uint8]))
-	ex.vals[x] = v
+	ex.vals[x] = ex.asVal(v, x.Type())
 }
 
 func (ex *Exec) unop(x *ssa.UnOp, h *Heap, reach Term) {
@@ -901,9 +940,17 @@ func (ex *Exec) unop(x *ssa.UnOp, h *Heap, reach Term) {
 			ex.setVal(x, app(v.Sort, "fp.neg", v))
 			return
 		}
+		if isBV(v.Sort) {
+			ex.setVal(x, app(v.Sort, "bvneg", v))
+			return
+		}
 		ex.setVal(x, ex.wrapTo(app(sInt, "-", v), x.Type()))
 	case token.XOR:
 		v := ex.val(x.X)
+		if isBV(v.Sort) {
+			ex.setVal(x, app(v.Sort, "bvnot", v))
+			return
+		}
 		// ^x = -x-1 for signed; for unsigned: max - x
 		lo, hi, _ := intRange(x.Type())
 		if lo == "0" {
@@ -968,6 +1015,9 @@ func (ex *Exec) binop(x *ssa.BinOp, reach Term) Term {
 	a, b := ex.val(x.X), ex.val(x.Y)
 	xt := x.X.Type()
 	srt := q.so.sortOf(xt)
+	if isBV(srt) {
+		return ex.bvBinop(x, a, b, reach)
+	}
 	switch srt {
 	case sInt:
 		if isPointerLike(xt) {
@@ -1158,6 +1208,34 @@ func (ex *Exec) convert(x *ssa.Convert, h *Heap, reach Term) Term {
 	v := ex.val(x.X)
 	fs, ts := q.so.sortOf(from), q.so.sortOf(to)
 	switch {
+	case isBV(fs) && isBV(ts):
+		fw, tw := bvWidthOfSort(fs), bvWidthOfSort(ts)
+		switch {
+		case fw == tw:
+			return v
+		case fw > tw:
+			return app(ts, fmt.Sprintf("(_ extract %d 0)", tw-1), v)
+		case isSignedInt(from):
+			return app(ts, fmt.Sprintf("(_ sign_extend %d)", tw-fw), v)
+		default:
+			return app(ts, fmt.Sprintf("(_ zero_extend %d)", tw-fw), v)
+		}
+	case isBV(fs) && (ts == sF64 || ts == sF32):
+		if isSignedInt(from) {
+			return app(ts, "(_ to_fp "+fpDims(ts)+") RNE", v)
+		}
+		return app(ts, "(_ to_fp_unsigned "+fpDims(ts)+") RNE", v)
+	case (fs == sF64 || fs == sF32) && isBV(ts):
+		// Go: result is implementation-specific when out of range; modelled with SMT's (unspecified) value
+		if isSignedInt(to) {
+			return app(ts, fmt.Sprintf("(_ fp.to_sbv %d) RTZ", bvWidthOfSort(ts)), v)
+		}
+		return app(ts, fmt.Sprintf("(_ fp.to_ubv %d) RTZ", bvWidthOfSort(ts)), v)
+	case isBV(fs) && ts == sStr:
+		return ex.rune2str(bvToInt(v, isSignedInt(from)), to, reach)
+	case isBV(fs) && ts == sInt, fs == sInt && isBV(ts):
+		// pointer <-> integer conversions (unsafe): not modelled
+		unsupported("convert %s -> %s", from, to)
 	case fs == sInt && ts == sInt:
 		if isPointerLike(from) || isPointerLike(to) {
 			return v
@@ -1186,14 +1264,7 @@ func (ex *Exec) convert(x *ssa.Convert, h *Heap, reach Term) Term {
 		q.heapSet(h, key, store(q.heapGet(h, key), base, strData(v)))
 		return mkSlice(base, strOff(v), strLen(v), strLen(v))
 	case fs == sInt && ts == sStr:
-		// string(rune)
-		r := ex.havocVal("rune2str", to, reach)
-		q.declFun("uf_rune2str", "(Int) Str")
-		q.assume(eq(r, app(sStr, "uf_rune2str", v)))
-		// for ASCII (incl. bytes < 0x80) the result is that one byte
-		q.assume(implies(and(le(tInt(0), v), lt(v, tInt(128))), and(eq(strLen(r), tInt(1)), eq(strAt(r, tInt(0)), v))))
-		q.assume(and(le(tInt(1), strLen(r)), le(strLen(r), tInt(4))))
-		return r
+		return ex.rune2str(v, to, reach)
 	case fs == sInt && (ts == sF64 || ts == sF32):
 		return app(ts, "(_ to_fp "+fpDims(ts)+") RNE", app("Real", "to_real", v))
 	case (fs == sF64 || fs == sF32) && ts == sInt:
@@ -1205,6 +1276,87 @@ func (ex *Exec) convert(x *ssa.Convert, h *Heap, reach Term) Term {
 		return v
 	}
 	unsupported("convert %s -> %s", from, to)
+	return Term{}
+}
+
+// string(rune)
+func (ex *Exec) rune2str(v Term, to types.Type, reach Term) Term {
+	q := ex.q
+	r := ex.havocVal("rune2str", to, reach)
+	q.declFun("uf_rune2str", "(Int) Str")
+	q.assume(eq(r, app(sStr, "uf_rune2str", v)))
+	// for ASCII (incl. bytes < 0x80) the result is that one byte
+	q.assume(implies(and(le(tInt(0), v), lt(v, tInt(128))), and(eq(strLen(r), tInt(1)), eq(strAt(r, tInt(0)), v))))
+	q.assume(and(le(tInt(1), strLen(r)), le(strLen(r), tInt(4))))
+	return r
+}
+
+// bvBinop: fixed-width machine arithmetic (Go semantics: wrap-around, truncated division).
+func (ex *Exec) bvBinop(x *ssa.BinOp, a, b Term, reach Term) Term {
+	srt := a.Sort
+	w := bvWidthOfSort(srt)
+	signed := isSignedInt(x.X.Type())
+	zero := bvLit("0", w)
+	pick := func(s, u string) string {
+		if signed {
+			return s
+		}
+		return u
+	}
+	switch x.Op {
+	case token.ADD:
+		return app(srt, "bvadd", a, b)
+	case token.SUB:
+		return app(srt, "bvsub", a, b)
+	case token.MUL:
+		return app(srt, "bvmul", a, b)
+	case token.QUO:
+		ex.safety("safe.div", reach, not(eq(b, zero)), x, "integer division by zero")
+		return app(srt, pick("bvsdiv", "bvudiv"), a, b)
+	case token.REM:
+		ex.safety("safe.div", reach, not(eq(b, zero)), x, "integer modulo by zero")
+		return app(srt, pick("bvsrem", "bvurem"), a, b)
+	case token.AND:
+		return app(srt, "bvand", a, b)
+	case token.OR:
+		return app(srt, "bvor", a, b)
+	case token.XOR:
+		return app(srt, "bvxor", a, b)
+	case token.AND_NOT:
+		return app(srt, "bvand", a, app(srt, "bvnot", b))
+	case token.EQL:
+		return eq(a, b)
+	case token.NEQ:
+		return not(eq(a, b))
+	case token.LSS:
+		return app(sBool, pick("bvslt", "bvult"), a, b)
+	case token.LEQ:
+		return app(sBool, pick("bvsle", "bvule"), a, b)
+	case token.GTR:
+		return app(sBool, pick("bvsgt", "bvugt"), a, b)
+	case token.GEQ:
+		return app(sBool, pick("bvsge", "bvuge"), a, b)
+	case token.SHL, token.SHR:
+		// shift count: any integer type; negative signed count panics
+		cw := bvWidthOfSort(b.Sort)
+		cnt := b
+		if isSignedInt(x.Y.Type()) {
+			ex.safety("safe.shift", reach, app(sBool, "bvsge", b, bvLit("0", cw)), x, "negative shift count")
+		}
+		// bring the count to width w, saturating (a count >= w shifts everything out)
+		switch {
+		case cw < w:
+			cnt = app(srt, fmt.Sprintf("(_ zero_extend %d)", w-cw), b)
+		case cw > w:
+			big := app(sBool, "bvuge", b, bvLit(fmt.Sprint(w), cw))
+			cnt = ite(big, bvLit(fmt.Sprint(w), w), app(srt, fmt.Sprintf("(_ extract %d 0)", w-1), b))
+		}
+		if x.Op == token.SHL {
+			return app(srt, "bvshl", a, cnt)
+		}
+		return app(srt, pick("bvashr", "bvlshr"), a, cnt)
+	}
+	unsupported("bv binop %s", x.Op)
 	return Term{}
 }
 
@@ -1241,7 +1393,7 @@ func (ex *Exec) slice(x *ssa.Slice, h *Heap, reach Term) {
 	q := ex.q
 	var lo, hi Term
 	if x.Low != nil {
-		lo = ex.val(x.Low)
+		lo = ex.ival(x.Low)
 	} else {
 		lo = tInt(0)
 	}
@@ -1249,7 +1401,7 @@ func (ex *Exec) slice(x *ssa.Slice, h *Heap, reach Term) {
 	case *types.Basic: // string
 		s := ex.val(x.X)
 		if x.High != nil {
-			hi = ex.val(x.High)
+			hi = ex.ival(x.High)
 		} else {
 			hi = strLen(s)
 		}
@@ -1258,13 +1410,13 @@ func (ex *Exec) slice(x *ssa.Slice, h *Heap, reach Term) {
 	case *types.Slice:
 		s := ex.val(x.X)
 		if x.High != nil {
-			hi = ex.val(x.High)
+			hi = ex.ival(x.High)
 		} else {
 			hi = slLen(s)
 		}
 		var mx Term
 		if x.Max != nil {
-			mx = ex.val(x.Max)
+			mx = ex.ival(x.Max)
 			ex.safety("safe.slice", reach, and(le(tInt(0), lo), le(lo, hi), le(hi, mx), le(mx, slCap(s))), x, "slice bounds (3-index)")
 		} else {
 			mx = slCap(s)
@@ -1282,7 +1434,7 @@ func (ex *Exec) slice(x *ssa.Slice, h *Heap, reach Term) {
 			pl = ex.locOf(x.X)
 		}
 		if x.High != nil {
-			hi = ex.val(x.High)
+			hi = ex.ival(x.High)
 		} else {
 			hi = tInt(at.Len())
 		}
